@@ -245,6 +245,26 @@ def run(ctx):
                    "NOSET keeps the limit the machine had", b.loc(),
                    "stack size %r (expected %r), program size %r (expected %r) %s" % (ss4, want_ss, ps4, want_ps, bad4[:1]),
                    "A4 of Machine::load per directive value on a machine holding earlier limits")
+    # "as on a newly created machine": a program without *STACKSIZE / *PROGRAMSIZE lines carries concrete limits - the
+    # power-on stack limit of RawMachine::new and the automatic program size - not NOSET, which would keep whatever an
+    # earlier program left behind
+    TRN = "L::compiler::Translator"
+    It = absint.Interp(p)
+    stt = absint.State()
+    tr0 = It.run_body(p.need_body(TRN + "::new"), [], stt, 0)
+    rm0 = It.run_body(p.need_body(RM + "::new"), [], stt, 0)
+    trf = dict(zip(p.field_names(TRN), tr0.f)) if isinstance(tr0, Agg) else {}
+    rmf = dict(zip(p.field_names(RM), rm0.f)) if isinstance(rm0, Agg) else {}
+    t_ss, t_ps, m_ss = trf.get("stacksize"), trf.get("programsize"), rmf.get("stacksize")
+    notset_ss = En({ss_names.index("NotSet"): ()})
+    chk.ob("load/default-limits", isinstance(t_ss, En) and len(t_ss.vs) == 1 and t_ss != notset_ss and t_ss == m_ss
+           and t_ps == En({ps_names.index("Auto"): ()}),
+           "a program that states no limits is translated with the power-on stack limit of a new machine and the automatic "
+           "program size, so that loading it replaces the limits of an earlier program",
+           p.need_body(TRN + "::new").loc(),
+           "Translator::new: stacksize %r, programsize %r; RawMachine::new: stacksize %r (variants %s / %s)"
+           % (t_ss, t_ps, m_ss, ss_names, ps_names),
+           "constant propagation through Translator::new and RawMachine::new")
     # RAM zero fill: after master_reset + reset_ram (before the copy) the RAM is all zero
     st2 = absint.State()
     ov = step.machine_overrides(p, None, None, None, stacksize_notset=True)
